@@ -1218,3 +1218,71 @@ def run(idx, rep, tier):
              'C12.R9): a peer-chosen length beyond end of file cannot make '
              'it spin')
     copy_loop_progress(k, 'C10.R14')
+    from .c14 import sftp_init_guarded
+    rep.rule('C10.R18', 'the SFTP version exchange never lets a decode error or a short read escape its task (= C14.R14)')
+    sftp_init_guarded(k, 'C10.R18')
+    from .c20 import dest_connect_errors
+    rep.rule('C10.R19', 'extreme destination port (= C20.R13): a 32-bit port '
+             'above 65535 in a direct-tcpip open fails that open only')
+    dest_connect_errors(k, 'C10.R19')
+    rep.rule('C10.R20', 'the two SSH blob decoders agree on what they '
+             'convert: decode_ssh_public_key and decode_ssh_certificate both '
+             'turn PacketDecodeError, ValueError and OverflowError (negative '
+             'or oversized numbers reaching the key constructors) into '
+             'KeyImportError')
+    want = {'PacketDecodeError', 'ValueError', 'OverflowError'}
+    for q in ('public_key.decode_ssh_public_key',
+              'public_key.decode_ssh_certificate'):
+        _fi = k.func(q)
+        got = set()
+        for t in ast.walk(_fi.node):
+            if isinstance(t, ast.Try):
+                for h in t.handlers:
+                    if h.type is not None and any(
+                            isinstance(r, ast.Raise) and r.exc is not None and
+                            'KeyImportError' in unparse(r.exc)
+                            for r in ast.walk(h)):
+                        got |= {dotted(x) for x in (
+                            h.type.elts if isinstance(h.type, ast.Tuple)
+                            else [h.type])}
+        miss = want - got - ({'PacketDecodeError', 'OverflowError'}
+                             if 'Exception' in got else set())
+        if 'ArithmeticError' in got:
+            miss.discard('OverflowError')
+        rep.check(not miss, 'C10.R20', key(_fi, 'converted exceptions'),
+                  f'converts {sorted(got)}',
+                  f'{_fi.name} does not convert {sorted(miss)}: a '
+                  'self-signed certificate whose RSA subject key has a '
+                  'negative modulus makes import_certificate / '
+                  'decode_ssh_certificate raise OverflowError instead of '
+                  'KeyImportError', _fi.loc(_fi.node))
+    rep.rule('C10.R21', 'SFTP READ: the length handed to SFTPServer.read is '
+             'bounded by the advertised maximum read length '
+             '(min(length, MAX_SFTP_READ_LEN) or an explicit comparison): a '
+             '30-byte request with length 2^32-1 must not produce a reply as '
+             'large as the file')
+    _fi = k.func('sftp.SFTPServerHandler._process_read')
+    _g = k.cfg(_fi)
+    _rd = k.rd(_fi)
+    from ..flow import expr_sources as _es2
+    _sites = k.calls_named(_fi, 'read', 'self._server')
+    rep.floor('C10.R21', 'server read sites', len(_sites), 1)
+    for _n, _c in _sites:
+        _arg = _c.args[2] if len(_c.args) > 2 else None
+        _lv, _free = _es2(_g, _rd, _n.id, _arg) if _arg is not None \
+            else ([], set())
+        _okb = bool(_lv) and all(
+            is_call(l, 'min') and 'MAX_SFTP_READ_LEN' in unparse(l)
+            for l in _lv)
+        if not _okb:
+            _okb = _g.guarded_by(_n.id, lambda x: True if (
+                x.kind == 'atom' and isinstance(x.ast, ast.Compare) and
+                'length' in names_read(x.ast) and
+                'MAX_SFTP_READ_LEN' in unparse(x.ast) and
+                isinstance(x.ast.ops[0], (ast.LtE, ast.Lt))) else None) is None
+        rep.check(_okb, 'C10.R21', key(_fi, 'read length bounded'),
+                  'length <= MAX_SFTP_READ_LEN when the file is read',
+                  'the client\'s 32-bit length goes to SFTPServer.read() as '
+                  'is: READ with length 0xffffffff on a 256 MiB file '
+                  'returns one 256 MiB reply and stalls the event loop for '
+                  'seconds', k.loc(_fi, _n))
